@@ -69,9 +69,12 @@ class EventEmitter(object):
         """Prevent all callbacks to be called if events are raised
         in the context manager.
         """
-        self.is_silent = not(self.is_silent)
-        yield
-        self.is_silent = not(self.is_silent)
+        was_silent = self.is_silent
+        self.is_silent = True
+        try:
+            yield
+        finally:
+            self.is_silent = was_silent
 
     def connect(self, func=None, event=None, sender=None, **kwargs):
         """Register a callback function to a given event.
